@@ -104,6 +104,8 @@ func (m *WindowlessMovingPercentile) Reset() {
 	m.mu.Lock()
 	m.value = 0
 	m.seenCount = 0
+	m.delta = m.deltaInitial
+	m.deltaState.Reset()
 	m.mu.Unlock()
 }
 
